@@ -374,6 +374,19 @@ type C17Step struct {
 	On  bool   `json:"on,omitempty"`
 	Cfg *Cfg   `json:"cfg,omitempty"`
 	Req *Req   `json:"req,omitempty"`
+	// Preset: response headers an outer layer has already set when the request reaches the middleware (serve steps)
+	Preset []HV `json:"preset,omitempty"`
+}
+
+// response header fields as outer layers leave them, in every legal shape: lists with empty or blank elements,
+// several lines, a lone comma, the empty string, a key written straight into the map in lower case, a key with no values
+var c17PresetShapes = [][]HV{
+	{{"Vary", Vals("Accept-Encoding, ")}}, {{"Vary", Vals(", Accept-Encoding")}}, {{"Vary", Vals("Accept-Encoding,,Cookie")}}, {{"Vary", Vals("Accept-Encoding, , Cookie")}},
+	{{"Vary", Vals(",")}}, {{"Vary", Vals(" ")}}, {{"Vary", Vals("")}}, {{"Vary", Vals("*")}}, {{"Vary", Vals("Origin")}}, {{"Vary", Vals("origin,")}},
+	{{"Vary", Vals("Accept-Encoding", " , ")}}, {{"Vary", Vals("a", "b", "c", "", ",,,")}}, {{"Vary", nil}}, {{"vary", Vals("accept-encoding, ")}},
+	{{"Access-Control-Allow-Origin", Vals("")}}, {{"Access-Control-Allow-Origin", Vals("*", "*")}}, {{"Access-Control-Expose-Headers", Vals(", ,")}}, {{"Access-Control-Expose-Headers", nil}},
+	{{"Access-Control-Allow-Headers", Vals(",")}}, {{"Access-Control-Allow-Methods", Vals(" ")}}, {{"Access-Control-Max-Age", Vals("")}}, {{"Access-Control-Allow-Credentials", Vals("", "")}},
+	{{"Vary", Vals("Accept-Encoding, ")}, {"Access-Control-Allow-Origin", Vals("")}, {"Access-Control-Expose-Headers", Vals(",")}},
 }
 
 type C17Hist struct {
@@ -421,7 +434,11 @@ func c17HistGen(t *rapid.T) C17Hist {
 			c.Steps = append(c.Steps, C17Step{Op: "config"})
 		default:
 			r := genReq(t, poolsOf(cur))
-			c.Steps = append(c.Steps, C17Step{Op: "serve", Req: &r})
+			st := C17Step{Op: "serve", Req: &r}
+			if chance(t, "preset", 40) {
+				st.Preset = pick(t, "presetshape", c17PresetShapes)
+			}
+			c.Steps = append(c.Steps, st)
 		}
 	}
 	return c
@@ -501,7 +518,7 @@ func c17HistoryWorker(c C17Hist, progress *atomic.Int32, done chan<- *Disc) {
 				m.Config()
 			case "serve":
 				if s.Req != nil {
-					h.ServeHTTP(NewRec(nil), s.Req.HTTP())
+					h.ServeHTTP(NewRec(s.Preset), s.Req.HTTP())
 				}
 			}
 		}
@@ -549,12 +566,36 @@ func c17HistCheck(c C17Hist, rec *Recorder) *Disc {
 				}
 			}
 			if !blocked {
-				rec.Class("not-judged-slow")
-				select {
-				case d := <-done:
-					return d
-				case <-time.After(60 * time.Second):
-					return nil
+				// still running: slow, or spinning for good? Watch it for a minute. A call on inputs of at most a few
+				// MiB that is still on the CPU (running/runnable in at least 9 of 10 of >= 100 samples) at the same
+				// step after 60 s does not return in any useful sense of the word.
+				samples, onCPU := 0, 0
+				tick := time.NewTicker(500 * time.Millisecond)
+				defer tick.Stop()
+				limit := time.After(60 * time.Second)
+				for {
+					select {
+					case d := <-done:
+						rec.Class("not-judged-slow")
+						return d
+					case <-tick.C:
+						st, _ := goroutineState("c17HistoryWorker")
+						samples++
+						if st == "running" || st == "runnable" {
+							onCPU++
+						}
+					case <-limit:
+						if progress.Load() == at && samples >= 100 && onCPU*10 >= samples*9 {
+							op := "?"
+							if int(at) < len(c.Steps) {
+								op = c.Steps[at].Op
+							}
+							_, st := goroutineState("c17HistoryWorker")
+							return discf("call #%d (%s) of the history does not return: its goroutine has been on the CPU at that same call for 63 s (%d of %d samples running/runnable):\n%s", at, op, onCPU, samples, abbrev(st, 1500))
+						}
+						rec.Class("not-judged-slow")
+						return nil
+					}
 				}
 			}
 			op := "?"
@@ -569,7 +610,7 @@ func c17HistCheck(c C17Hist, rec *Recorder) *Disc {
 func TestC17Hist(t *testing.T) {
 	Prop[C17Hist]{ID: "C17", Part: "calls-return", Gen: c17HistGen, Check: c17HistCheck,
 		Rule: "calls return: history of 2-12 calls on one middleware (zero value or any valid configuration): SetDebug(b), Reconfigure(nil | valid | junk | its own Config()), Config(), a request through a wrapped handler that itself calls Config(), SetDebug, Reconfigure(Config()) or Reconfigure(nil)+Reconfigure(cfg) on the middleware that wraps it; run on a worker goroutine under a watchdog. " +
-			"Oracle: no panic, and the worker comes back; if it has not after 3 s, its scheduler state is read twice 300 ms apart: blocked on a lock/channel at the same call both times (no other goroutine uses that middleware) = a call that never returns; still running = slow, not judged. " +
+			"Oracle: no panic, and the worker comes back; if it has not after 3 s, its scheduler state is read twice 300 ms apart: blocked on a lock/channel at the same call both times (no other goroutine uses that middleware) = a call that never returns; still running = watched for another 60 s: on the CPU at the same call in >= 90% of >= 100 samples = a call that does not return (a spin); anything else = slow, not judged. Requests are served into response header maps that outer layers have left in every legal shape (lists with empty or blank elements, several lines, a lone comma, an empty string, lower-case keys, keys without values). " +
 			"non-trivial = history with Reconfigure(nil) while debug is on, or >= 6 calls; distinct by history.",
-		Assumptions: []string{"a goroutine that is the only user of a middleware and sits in a lock-wait state for 3 s is deadlocked, not slow; a goroutine still running after 3 s is never a verdict"}}.Run(t)
+		Assumptions: []string{"a goroutine that is the only user of a middleware and sits in a lock-wait state for 3 s is deadlocked, not slow; a goroutine that is still on the CPU at the same library call after 63 s, on inputs of at most a few MiB, is spinning, not slow"}}.Run(t)
 }
